@@ -81,7 +81,7 @@ def body(ctx):
     if ctx.violations:
         return
     nsess = 80 if ctx.quick else 800
-    specs = [scen.gen_session(rng, i, big=(i % 8 == 0)) for i in range(nsess)]
+    specs = [scen.gen_session(rng, i, big=(i % 8 == 0), adversarial=(i % 2 == 1)) for i in range(nsess)]
     # always include 1 MiB WRITEs whose byte sum exceeds 2^24 and a payload of 0xFF bytes
     specs.append(dict(seed=5, maxdata=1024 * 1024, rid='random', frag='whole', ops=[dict(api='push', size=3 * 1024 * 1024 + 17, src='bytesio', path='/big', mtime=7)]))
     specs.append(dict(seed=6, maxdata=4096, rid='high', frag='random', lid0=2 ** 32 - 2,
@@ -106,9 +106,30 @@ def body(ctx):
     ctx.count(traces=okn, evaluations=frames)
     ctx.extra['host_frames_checked'] = frames
     ctx.extra['frames_with_sum_over_2^24'] = bigsum
-    ctx.sample(dict(kind='frame', event=next(e for e in traces[-2] if e['ev'] == 'tx' and e['cmd'] == 'WRTE')))
+    ctx.sample(dict(kind='frame', event=next((e for e in traces[-2] if e['ev'] == 'tx' and e['cmd'] == 'WRTE'), None)))
+    if ctx.violations:
+        return
     if bigsum == 0:
         raise tlc.TlcError('vacuity: no frame with a byte sum above 2^24 was produced')
+    # concurrent operations with a preemption point at every transport write: frames of different threads / tasks must not interleave
+    from .. import tour
+    from .c06 import CFG
+    ex = []
+    for k in range(60 if ctx.quick else 1500):
+        name = ('C', 'G', 'I', 'B')[k % 4]
+        mode = ('async', 'sync')[(k // 4) % 2]
+        prog, rep = CFG[name]
+        tr, info = tour.explore(mode, prog, rep, 1, random.Random(ctx.seed * 991 + k), write_yield=True)[0]
+        ex.append((tr, dict(config=name, mode=mode, schedule=info['schedule'])))
+    v3, r3 = tlc.validate_traces('TraceEnv', [t for t, _ in ex])
+    ctx.add_tlc(r3, 'TraceEnv over %d concurrent schedules with write preemption' % len(ex))
+    for (i, l, v) in v3:
+        if v.startswith('C02.'):
+            ctx.violation(v, dict(kind='schedule', failing_event=l - 1, **ex[i][1]))
+        else:
+            ctx.count(traces=1)
+    if ctx.violations:
+        return
     # binding self-test
     import copy
     t2 = copy.deepcopy(traces[0])
